@@ -159,14 +159,14 @@ func init() {
 		Jobs: func(tier string) []*Job {
 			if tier == "thorough" {
 				// everything the quick tier covers (paths of 7 bytes on the first sets), plus more sets and longer hosts
-				js := mergeJobs(lookupJobs("C01Lookup", nHandSets+47, 3, 7), lookupJobs("C01Lookup", nHandSets+87, 4, 6))
-				return append(js, lookupJobs("C01Agree", nHandSets+87, 3, 5)...)
+				js := mergeJobs(lookupJobs("C01Lookup", nHandSets+47, 3, 7), lookupJobs("C01Lookup", nHandSets+67, 4, 6))
+				return append(js, lookupJobs("C01Agree", nHandSets+67, 3, 5)...)
 			}
 			return append(lookupJobs("C01Lookup", nHandSets+47, 3, 7), lookupJobs("C01Agree", nHandSets+47, 2, 5)...)
 		},
 		Bounds: func(tier string) string {
 			if tier == "thorough" {
-				return fmt.Sprint(nHandSets+87) + " corpus route sets x every Host of 0..4 bytes x every path of 1..6 bytes (on the first " + fmt.Sprint(nHandSets+47) + " sets with Host 0..3 also paths of 7 bytes; full byte alphabet, no empty segment), method GET, each answer re-checked three times on recycled contexts; entry-point agreement (ServeHTTP after three priming requests, Lookup, Reverse, Iter.Reverse, Txn read/write Lookup+Reverse) on the same sets with Host 0..3, path 1..5"
+				return fmt.Sprint(nHandSets+67) + " corpus route sets x every Host of 0..4 bytes x every path of 1..6 bytes (on the first " + fmt.Sprint(nHandSets+47) + " sets with Host 0..3 also paths of 7 bytes; full byte alphabet, no empty segment), method GET, each answer re-checked three times on recycled contexts; entry-point agreement (ServeHTTP after three priming requests, Lookup, Reverse, Iter.Reverse, Txn read/write Lookup+Reverse) on the same sets with Host 0..3, path 1..5"
 			}
 			return fmt.Sprint(nHandSets+47) + " corpus route sets x every Host of 0..3 bytes x every path of 1..7 bytes (full byte alphabet, no empty segment), method GET, each answer re-checked three times on recycled contexts; entry-point agreement (ServeHTTP after three priming requests, Lookup, Reverse, Iter.Reverse, Txn read/write Lookup+Reverse) on the same sets with Host 0..2, path 1..5"
 		},
@@ -183,10 +183,10 @@ func init() {
 			dlp, dlq := 4, 1
 			isets, ilp := nHandSets+13, 5
 			if tier == "thorough" {
-				js = lookupJobs("C08Tsr", nHandSets+77, 4, 7)
+				js = lookupJobs("C08Tsr", nHandSets+67, 4, 7)
 				dsets = []int{0, 6, 7, 8, 9, 13, 15, 17, 18}
-				dlp, dlq = 5, 2
-				isets, ilp = nHandSets+33, 6
+				dlp, dlq = 4, 2
+				isets, ilp = nHandSets+23, 6
 			} else {
 				js = lookupJobs("C08Tsr", nHandSets+47, 3, 7)
 			}
@@ -232,7 +232,7 @@ func init() {
 		},
 		Bounds: func(tier string) string {
 			if tier == "thorough" {
-				return "C08(a-c): " + fmt.Sprint(nHandSets+77) + " corpus route sets x every Host of 0..4 bytes x every path of 2..7 bytes (full byte alphabet, no empty segment), method GET; (d,e): 9 sets registered under GET/POST/CONNECT x 6 trailing-slash configurations (all ignore, all redirect, none, mixed per route, router-wide redirect with per-route ignore, router-wide ignore with per-route redirect) x every path of 2..5 bytes x every printable raw query of 0..2 bytes, Location resolved by an RFC 3986 reference resolver; (f): " + fmt.Sprint(nHandSets+33-1) + " sets x 9 extra routes x every path of 2..6 bytes (Host 0 and 2 bytes)"
+				return "C08(a-c): " + fmt.Sprint(nHandSets+67) + " corpus route sets x every Host of 0..4 bytes x every path of 2..7 bytes (full byte alphabet, no empty segment), method GET; (d,e): 9 sets registered under GET/POST/CONNECT x 6 trailing-slash configurations (all ignore, all redirect, none, mixed per route, router-wide redirect with per-route ignore, router-wide ignore with per-route redirect) x every path of 2..4 bytes x every printable raw query of 0..2 bytes, Location resolved by an RFC 3986 reference resolver; (f): " + fmt.Sprint(nHandSets+23-1) + " sets x 9 extra routes x every path of 2..6 bytes (Host 0 and 2 bytes)"
 			}
 			return "C08(a-c): " + fmt.Sprint(nHandSets+47) + " corpus route sets x every Host of 0..3 bytes x every path of 2..7 bytes (full byte alphabet, no empty segment), method GET; (d,e): 5 sets registered under GET/POST/CONNECT x 6 trailing-slash configurations (incl. router-wide ignore with per-route redirect) x every path of 2..3 bytes (2..4 without redirect, and on one set with it) x every printable raw query of 0..1 bytes, Location resolved by an RFC 3986 reference resolver, plus percent-encoded requests (RawPath set, every valid raw path of 5 bytes and, on two sets, 7 bytes); (f): 33 sets x 9 extra routes x every path of 2..5 bytes (Host 0 and 2 bytes)"
 		},
@@ -314,7 +314,7 @@ func c02Jobs(tier string) []*Job {
 	}
 	starts := []int{-1, 0, 6, 11, 16, 17, 19}
 	if tier == "thorough" {
-		starts = []int{-1, 0, 1, 6, 10, 11, 16, 17, 19, 20, nHandSets}
+		starts = []int{-1, 0, 1, 6, 11, 16, 17, 19}
 	}
 	for _, s := range starts {
 		if tier == "thorough" && s == 16 {
@@ -322,7 +322,11 @@ func c02Jobs(tier string) []*Job {
 			add(s, 2, 2, 0, 4)
 			add(s, 1, 2, 3, 18)
 		} else if tier == "thorough" {
-			add(s, 2, 2, 0, 8)
+			pl := 8
+			if s == 6 || s == 11 {
+				pl = 6
+			}
+			add(s, 2, 2, 0, pl)
 			if s <= 0 {
 				add(s, 3, 2, 0, 2)
 			}
@@ -353,10 +357,8 @@ func c02Jobs(tier string) []*Job {
 			}
 		}
 	}
-	if tier != "thorough" {
-		add(-1, 2, 2, 2, 8)
-		add(0, 2, 2, 2, 4)
-	}
+	add(-1, 2, 2, 2, 8)
+	add(0, 2, 2, 2, 4)
 	// hostnames that are label-wise prefixes of each other (pool window 20..23), from the empty router
 	kk := 2
 	js = append(js, &Job{Harness: "C02History", Params: map[string]int{"set": -1, "k": kk, "methods": 2, "symlen": 0, "pool": 4, "poolfrom": 20, "iter": 1}})
@@ -372,7 +374,7 @@ func init() {
 		Jobs: c02Jobs,
 		Bounds: func(tier string) string {
 			if tier == "thorough" {
-				return "11 start sets (empty, hand and generated corpus sets incl. hostnames and the 60-sibling fan-out) x histories of k<=2 writes (k=3 from two of the sets; Handle, HandleRoute, Update, UpdateRoute, Delete, Truncate(all), Truncate(method)) issued directly or in a committed/aborted transaction, methods {GET,FOO}, patterns from an 8-entry pool (2 for k=3) (and two 4-entry pools: hostnames that are label-wise prefixes of each other, from the empty router; a route on an existing branching node plus routes below it, from the siblings-3 set); plus a first write with a symbolic pattern of 1..3 arbitrary bytes (1..4 from two of the sets); every reader checked after every step"
+				return "8 start sets (empty and hand-written corpus sets incl. hostnames and the 60-sibling fan-out) x histories of k<=2 writes (k=3 from two of the sets; Handle, HandleRoute, Update, UpdateRoute, Delete, Truncate(all), Truncate(method)) issued directly or in a committed/aborted transaction, methods {GET,FOO}, patterns from a 6..8-entry pool (2 for k=3) (and two 4-entry pools: hostnames that are label-wise prefixes of each other, from the empty router; a route on an existing branching node plus routes below it, from the siblings-3 set); plus a first write with a symbolic pattern of 1..3 arbitrary bytes (1..4 from two of the sets); every reader checked after every step"
 			}
 			return "7 start sets x histories of k<=2 writes (7 kinds) direct / committed txn / aborted txn, with and without an iterator on the open transaction between the steps, methods {GET,FOO}, 6..8-entry pattern pool (12 for k=1), and two 4-entry pools (hostnames that are label-wise prefixes of each other, from the empty router; a route on an existing branching node plus routes below it, from the siblings-3 set); plus a first write with a symbolic pattern of 1..4 arbitrary bytes (k=1; 1..3 on four of the sets) and 2 bytes (k=2); every reader (Has, Route, Len, Reverse, Iter.All/Methods/Prefix per method and over all methods/Routes/Reverse) checked after every step, on the router, on the open transaction and on a snapshot of it"
 		},
